@@ -36,7 +36,7 @@ impl Property for C15 {
         ]
     }
     fn cases(&self, tier: Tier) -> u64 {
-        tier.pick(50_000, 800_000)
+        tier.pick(500_000, 5_000_000)
     }
     fn strategy(&self, tier: Tier) -> BoxedStrategy<Case> {
         let cfg = HistCfg {
